@@ -26,38 +26,60 @@ pub fn choose_pivot(n: usize) -> usize {
 }
 
 /// Reference model of `indexmap::IndexMap`: insertion-ordered, lookup by key,
-/// a repeated key overwrites the value and keeps its position.
+/// a repeated key overwrites the value and keeps its position. Keys and values
+/// live in two fixed-size arrays (heap vectors of tuples are very expensive for
+/// the model checker's array theory); capacity 8.
 #[derive(Clone, Debug)]
 pub struct ModelMap<K, V> {
-    entries: Vec<(K, V)>,
+    keys: [Option<K>; 8],
+    vals: [Option<V>; 8],
+    len: usize,
 }
 
 impl<K: PartialEq, V> ModelMap<K, V> {
     pub fn new() -> Self {
         ModelMap {
-            entries: Vec::with_capacity(8),
+            keys: [None, None, None, None, None, None, None, None],
+            vals: [None, None, None, None, None, None, None, None],
+            len: 0,
         }
     }
     pub fn len(&self) -> usize {
-        self.entries.len()
+        self.len
     }
     pub fn is_empty(&self) -> bool {
-        self.entries.is_empty()
+        self.len == 0
+    }
+    fn position(&self, k: &K) -> Option<usize> {
+        let mut i = 0;
+        while i < self.len {
+            if self.keys[i].as_ref() == Some(k) {
+                return Some(i);
+            }
+            i += 1;
+        }
+        None
     }
     pub fn get(&self, k: &K) -> Option<&V> {
-        self.entries.iter().find(|e| e.0 == *k).map(|e| &e.1)
+        match self.position(k) {
+            Some(i) => self.vals[i].as_ref(),
+            None => None,
+        }
     }
     pub fn iter(&self) -> impl Iterator<Item = (&K, &V)> {
-        self.entries.iter().map(|e| (&e.0, &e.1))
+        (0..self.len).map(move |i| (self.keys[i].as_ref().unwrap(), self.vals[i].as_ref().unwrap()))
     }
     pub fn insert(&mut self, k: K, v: V) -> Option<V> {
-        for e in self.entries.iter_mut() {
-            if e.0 == k {
-                return Some(std::mem::replace(&mut e.1, v));
+        match self.position(&k) {
+            Some(i) => self.vals[i].replace(v),
+            None => {
+                assert!(self.len < 8, "ModelMap: capacity of the model exceeded");
+                self.keys[self.len] = Some(k);
+                self.vals[self.len] = Some(v);
+                self.len += 1;
+                None
             }
         }
-        self.entries.push((k, v));
-        None
     }
 }
 
@@ -78,11 +100,29 @@ impl<K: PartialEq, V> std::ops::Index<&K> for ModelMap<K, V> {
     }
 }
 
+pub struct ModelMapIntoIter<K, V> {
+    map: ModelMap<K, V>,
+    pos: usize,
+}
+
+impl<K, V> Iterator for ModelMapIntoIter<K, V> {
+    type Item = (K, V);
+    fn next(&mut self) -> Option<(K, V)> {
+        if self.pos < self.map.len {
+            let i = self.pos;
+            self.pos += 1;
+            Some((self.map.keys[i].take().unwrap(), self.map.vals[i].take().unwrap()))
+        } else {
+            None
+        }
+    }
+}
+
 impl<K, V> IntoIterator for ModelMap<K, V> {
     type Item = (K, V);
-    type IntoIter = std::vec::IntoIter<(K, V)>;
+    type IntoIter = ModelMapIntoIter<K, V>;
     fn into_iter(self) -> Self::IntoIter {
-        self.entries.into_iter()
+        ModelMapIntoIter { map: self, pos: 0 }
     }
 }
 
